@@ -148,9 +148,16 @@ class DataDir(object):
             # protected name ('./x', Path('x'), 'sub/../x', 'x/y') are caught
             basepath = os.path.abspath(self._path)
             filepath = os.path.abspath(os.path.join(basepath, filename))
-            relparts = Path(os.path.relpath(filepath, basepath)).parts
-            if relparts and relparts[0] in self._protectedpaths:
-                raise OSError(f'Cannot modify protected file "{filename}"')
+            # also compare the paths as the operating system resolves them,
+            # which differs when symbolic links are involved
+            realbasepath = os.path.realpath(self._path)
+            realfilepath = os.path.realpath(os.path.join(self._path, filename))
+            for bp, fp in ((basepath, filepath),
+                           (realbasepath, realfilepath)):
+                relparts = Path(os.path.relpath(fp, bp)).parts
+                if relparts and relparts[0] in self._protectedpaths:
+                    raise OSError(f'Cannot modify protected file '
+                                  f'"{filename}"')
 
     # FIXME overwrite parameter?
     @contextmanager
